@@ -67,7 +67,7 @@ Footer == 8
 MinMax == 2 * SegMax
 NoQ == [open |-> FALSE, max |-> 0, tot |-> 0, held |-> FALSE]
 NoD == [ex |-> FALSE, segs |-> <<>>]
-Fresh == [blocks |-> <<>>, adv |-> 0]
+Fresh == [blocks |-> <<>>, adv |-> 0, cap |-> SegMax]      \* cap = segment.maxSize (in memory, recomputed by every open)
 
 \* ------------------------------------------------------------------ the queue (record level)
 RECURSIVE SumBlocks(_)
@@ -75,7 +75,8 @@ SumBlocks(bs) == IF bs = <<>> THEN 0 ELSE 8 + Head(bs).len + SumBlocks(Tail(bs))
 SegSize(s) == Footer + SumBlocks(s.blocks)                           \* segment.size = file size
 SegRem(s)  == SumBlocks(SubSeq(s.blocks, s.adv + 1, Len(s.blocks)))  \* segment.totalBytes
 EmptySeg(s) == s.adv = Len(s.blocks)                                 \* segment.empty
-FullSeg(s)  == SegSize(s) >= SegMax                                  \* segment.full
+FullSeg(s)  == SegSize(s) >= s.cap                                   \* segment.full
+MaxOf(a, b) == IF a > b THEN a ELSE b
 RECURSIVE DiskUsage(_)
 DiskUsage(ss) == IF ss = <<>> THEN 0 ELSE SegSize(Head(ss)) + DiskUsage(Tail(ss))
 RECURSIVE Remaining(_)
@@ -86,16 +87,21 @@ Pending(ss) == IF ss = <<>> THEN <<>>
 Nums(bs) == [k \in 1..Len(bs) |-> bs[k].b]
 
 \* Queue.Open on the segment files found: empty segments are removed, a segment is added if none is left;
-\* the SharedCount gets DiskUsage unless the head is at EOF (then Open returns through trimHead without adding)
+\* a segment file larger than the segment size gets its own size as limit (newSegment), so a reopened over-full tail
+\* takes one more block; the SharedCount gets DiskUsage unless the head is at EOF (then Open returns through trimHead
+\* without adding)
 OpenQ(ss) ==
-  LET s1 == SelectSeq(ss, LAMBDA s : ~EmptySeg(s))
+  LET s0 == SelectSeq(ss, LAMBDA s : ~EmptySeg(s))
+      s1 == [k \in 1..Len(s0) |-> [s0[k] EXCEPT !.cap = MaxOf(SegMax, SegSize(s0[k]))]]
       s2 == IF s1 = <<>> THEN <<Fresh>> ELSE s1
   IN [segs |-> s2, tot |-> IF EmptySeg(s2[1]) THEN 0 ELSE DiskUsage(s2)]
 
-\* Queue.Append (size check passed): the tail refuses when its size exceeds SegMax => new segment
+\* Queue.Append (size check passed): the tail refuses when its size exceeds its limit => new segment; a block longer
+\* than the limit raises the limit of the segment that takes it
 AppendTo(ss, blk) ==
-  IF SegSize(ss[Len(ss)]) > SegMax THEN Append(ss, [blocks |-> <<blk>>, adv |-> 0])
-  ELSE [ss EXCEPT ![Len(ss)].blocks = Append(@, blk)]
+  IF SegSize(ss[Len(ss)]) > ss[Len(ss)].cap
+  THEN Append(ss, [blocks |-> <<blk>>, adv |-> 0, cap |-> MaxOf(SegMax, blk.len)])
+  ELSE [ss EXCEPT ![Len(ss)].blocks = Append(@, blk), ![Len(ss)].cap = MaxOf(@, blk.len)]
 
 \* run(): SendWrite scans the head segment to its end and advances (trimHead), and is called again while it
 \* returns (0, true), i.e. until NewScanner reports EOF
